@@ -1,0 +1,289 @@
+//go:build verif
+
+// Contracts for job.go and group_job.go of package varmq, checked by /verif (vq). Comment-only file: no executable code.
+package varmq
+
+//@ package varmq
+
+// ---------------------------------------------------------------- job.go
+// A single job's WaitGroup is 1 until the job is closed, then 0 (Wait returns exactly when the job is closed).
+// Batch members (created by *.newJob of a group) never use their own WaitGroup: it stays 0 and the batch counter tracks them.
+//@ pred RI_job(j *job) := j != nil && 0 <= j.status && j.status <= closed && j.wg == (j.status == closed ? 0 : 1)
+//@ pred RI_member(j *job) := j != nil && 0 <= j.status && j.status <= closed && j.wg == 0
+
+//@ func newJob
+//@   props C05 C16 C07 C12
+//@   modifies $alloc, result.id, result.data, result.status, result.wg, result.queue, result.ackId
+//@   ensures [fresh] $fresh(result) && result.id == configs.Id && result.data == data && result.status == created && result.ackId == "" && result.queue == nil
+//@   ensures [ri]    RI_job(result)
+
+//@ func job.setAckId
+//@   props C11
+//@   modifies j.ackId
+//@   ensures j.ackId == id
+//@ func job.setInternalQueue
+//@   props C11
+//@   modifies j.queue
+//@   ensures j.queue == q
+//@ func job.ID
+//@   props C07 C12
+//@   ensures result == j.id
+//@ func job.Data
+//@   props C07 C12
+//@   ensures result == j.data
+//@ func job.IsClosed
+//@   props C10 C16
+//@   ensures result == (j.status == closed)
+//@ func job.changeStatus
+//@   props C16
+//@   modifies j.status
+//@   ensures j.status == s
+
+// Status is the textual form of the status; statusString/statusOf below are inverse on the five statuses (C12, C16).
+//@ func job.Status
+//@   props C16 C12
+//@   ensures [created]    j.status == created ==> result == "Created"
+//@   ensures [queued]     j.status == queued ==> result == "Queued"
+//@   ensures [processing] j.status == processing ==> result == "Processing"
+//@   ensures [finished]   j.status == finished ==> result == "Finished"
+//@   ensures [closed]     j.status == closed ==> result == "Closed"
+//@   ensures [unknown]    j.status > closed ==> result == "Unknown"
+
+//@ func job.isCloseable
+//@   props C10 C05
+//@   ensures [processing] j.status == processing ==> result == ErrJobProcessing
+//@   ensures [closed]     j.status == closed ==> result == ErrJobAlreadyClosed
+//@   ensures [ok]         j.status != processing && j.status != closed ==> result == nil
+
+// ack: at most one Acknowledge, with the job's own ack id, only if it has one, is not closed and came from an acknowledging queue.
+//@ func job.ack
+//@   props C11 C10
+//@   modifies $acks(j.queue), $lastAck(j.queue), $alloc
+//@   ensures [none]  (j.ackId == "" || j.status == closed || !$impl(IAcknowledgeable, j.queue)) ==> result == nil && $acks(j.queue) == old($acks(j.queue))
+//@   ensures [once]  j.ackId != "" && j.status != closed && $impl(IAcknowledgeable, j.queue) ==> $acks(j.queue) == old($acks(j.queue)) + 1 && $lastAck(j.queue) == j.ackId
+
+// Close: refused while processing or when already closed (nothing changes); otherwise acknowledged (if applicable), marked closed, and
+// the waiters are released exactly once. The status is stored before the release.
+//@ func job.Close
+//@   props C05 C10 C11 C16
+//@   requires RI_job(j)
+//@   modifies j.status, j.wg, $acks(j.queue), $lastAck(j.queue), $alloc, $wgdone[0]
+//@   ensures [processing] old(j.status) == processing ==> result == ErrJobProcessing && j.status == processing && j.wg == old(j.wg) && $acks(j.queue) == old($acks(j.queue))
+//@   ensures [closed]     old(j.status) == closed ==> result == ErrJobAlreadyClosed && j.status == closed && j.wg == old(j.wg) && $acks(j.queue) == old($acks(j.queue))
+//@   ensures [done]       result == nil ==> old(j.status) != processing && old(j.status) != closed && j.status == closed && j.wg == old(j.wg) - 1 && $wgdone[0] == old($wgdone[0]) + 1
+//@   ensures [refused]    result != nil ==> j.status == old(j.status) && j.wg == old(j.wg) && $wgdone[0] == old($wgdone[0])
+//@   ensures [succeeds]   old(j.status) != processing && old(j.status) != closed && (j.ackId == "" || !$impl(IAcknowledgeable, j.queue)) ==> result == nil
+//@   ensures [ackonce]    $acks(j.queue) == old($acks(j.queue)) || ($acks(j.queue) == old($acks(j.queue)) + 1 && $lastAck(j.queue) == j.ackId && j.ackId != "")
+//@   ensures [ri]         RI_job(j)
+
+//@ func job.Wait
+//@   props C05
+//@   modifies j.wg
+//@   ensures j.wg == 0
+
+// ---------------------------------------------------------------- error / result jobs
+// The response channel of a single error/result job is open exactly as long as the job is not closed; it has room for the one outcome.
+//@ pred RespOpen(r *helpers.Response, st int) := r != nil && r.ch != nil && (st != closed ==> $open(r.ch)) && (st == closed ==> !$open(r.ch))
+
+//@ func newErrorJob
+//@   props C05 C07 C16
+//@   modifies $alloc
+//@   ensures [fresh] $fresh(result) && result.job.id == configs.Id && result.job.data == data && result.job.status == created && result.job.ackId == "" && result.job.queue == nil
+//@   ensures [ri]    RI_job($addr(result.job)) && $fresh(result.Response) && $fresh(result.Response.ch) && RespOpen(result.Response, created) && $cap(result.Response.ch) == 1 && $sent(result.Response.ch) == 0 && $rcvd(result.Response.ch) == 0
+
+//@ func errorJob.sendError
+//@   props C07 C05
+//@   requires ej.Response != nil && ej.Response.ch != nil && $open(ej.Response.ch)
+//@   modifies ej.Response.res, $chan(ej.Response.ch)
+//@   ensures [sent] ej.Response.res == err && $sent(ej.Response.ch) == old($sent(ej.Response.ch)) + 1 && $chval(ej.Response.ch, old($sent(ej.Response.ch))) == err
+
+//@ func errorJob.Err
+//@   props C07 C05
+//@   requires ej.Response != nil && ej.Response.ch != nil
+//@   modifies $chan(ej.Response.ch), $open(ej.Response.ch)
+//@   ensures [buffered] old($rcvd(ej.Response.ch)) < old($sent(ej.Response.ch)) ==> result == $chval(ej.Response.ch, old($rcvd(ej.Response.ch)))
+//@   ensures [closed]   old($rcvd(ej.Response.ch)) == old($sent(ej.Response.ch)) && !old($open(ej.Response.ch)) ==> result == ej.Response.res
+
+// Close: the response channel is closed exactly when the job's Close succeeded (never on a refused Close, never twice).
+//@ func errorJob.Close
+//@   props C05 C10 C07 C16
+//@   requires RI_job($addr(ej.job)) && RespOpen(ej.Response, ej.job.status)
+//@   modifies ej.job.status, ej.job.wg, $acks(ej.job.queue), $lastAck(ej.job.queue), $alloc, $wgdone[0], $open(ej.Response.ch)
+//@   ensures [done]    result == nil ==> old(ej.job.status) != processing && old(ej.job.status) != closed && ej.job.status == closed && ej.job.wg == old(ej.job.wg) - 1 && !$open(ej.Response.ch)
+//@   ensures [refused] result != nil ==> ej.job.status == old(ej.job.status) && ej.job.wg == old(ej.job.wg) && $open(ej.Response.ch) == old($open(ej.Response.ch))
+//@   ensures [succeeds] old(ej.job.status) != processing && old(ej.job.status) != closed && (ej.job.ackId == "" || !$impl(IAcknowledgeable, ej.job.queue)) ==> result == nil
+//@   ensures [errs]    old(ej.job.status) == processing ==> result == ErrJobProcessing
+//@   ensures [errs2]   old(ej.job.status) == closed ==> result == ErrJobAlreadyClosed
+//@   ensures [ri]      RI_job($addr(ej.job)) && RespOpen(ej.Response, ej.job.status)
+
+//@ func newResultJob
+//@   props C05 C07 C16
+//@   modifies $alloc
+//@   ensures [fresh] $fresh(result) && result.job.id == configs.Id && result.job.data == data && result.job.status == created && result.job.ackId == "" && result.job.queue == nil
+//@   ensures [ri]    RI_job($addr(result.job)) && $fresh(result.Response) && $fresh(result.Response.ch) && RespOpen(result.Response, created) && $cap(result.Response.ch) == 1 && $sent(result.Response.ch) == 0 && $rcvd(result.Response.ch) == 0
+
+// sendResult / sendError deliver exactly one Result tagged with this job's id.
+//@ func resultJob.sendResult
+//@   props C07 C05 C08
+//@   requires rj.Response != nil && rj.Response.ch != nil && $open(rj.Response.ch)
+//@   modifies rj.Response.res, $chan(rj.Response.ch)
+//@   ensures [sent]  $sent(rj.Response.ch) == old($sent(rj.Response.ch)) + 1
+//@   ensures [value] $chval(rj.Response.ch, old($sent(rj.Response.ch))).JobId == rj.job.id && $chval(rj.Response.ch, old($sent(rj.Response.ch))).Data == result && $chval(rj.Response.ch, old($sent(rj.Response.ch))).Err == nil
+//@   ensures [store] rj.Response.res.JobId == rj.job.id && rj.Response.res.Data == result && rj.Response.res.Err == nil
+
+//@ func resultJob.sendError
+//@   props C07 C05 C08
+//@   requires rj.Response != nil && rj.Response.ch != nil && $open(rj.Response.ch)
+//@   modifies rj.Response.res, $chan(rj.Response.ch)
+//@   ensures [sent]  $sent(rj.Response.ch) == old($sent(rj.Response.ch)) + 1
+//@   ensures [value] $chval(rj.Response.ch, old($sent(rj.Response.ch))).JobId == rj.job.id && $chval(rj.Response.ch, old($sent(rj.Response.ch))).Err == err
+//@   ensures [store] rj.Response.res.JobId == rj.job.id && rj.Response.res.Err == err
+
+//@ func resultJob.Result
+//@   props C07 C05
+//@   requires rj.Response != nil && rj.Response.ch != nil
+//@   modifies $chan(rj.Response.ch), $open(rj.Response.ch)
+//@   ensures [buffered] old($rcvd(rj.Response.ch)) < old($sent(rj.Response.ch)) ==> result0 == $chval(rj.Response.ch, old($rcvd(rj.Response.ch))).Data && result1 == $chval(rj.Response.ch, old($rcvd(rj.Response.ch))).Err
+//@   ensures [closed]   old($rcvd(rj.Response.ch)) == old($sent(rj.Response.ch)) && !old($open(rj.Response.ch)) ==> result0 == rj.Response.res.Data && result1 == rj.Response.res.Err
+
+//@ func resultJob.Close
+//@   props C05 C10 C07 C16
+//@   requires RI_job($addr(rj.job)) && RespOpen(rj.Response, rj.job.status)
+//@   modifies rj.job.status, rj.job.wg, $acks(rj.job.queue), $lastAck(rj.job.queue), $alloc, $wgdone[0], $open(rj.Response.ch)
+//@   ensures [done]    result == nil ==> old(rj.job.status) != processing && old(rj.job.status) != closed && rj.job.status == closed && rj.job.wg == old(rj.job.wg) - 1 && !$open(rj.Response.ch)
+//@   ensures [refused] result != nil ==> rj.job.status == old(rj.job.status) && rj.job.wg == old(rj.job.wg) && $open(rj.Response.ch) == old($open(rj.Response.ch))
+//@   ensures [succeeds] old(rj.job.status) != processing && old(rj.job.status) != closed && (rj.job.ackId == "" || !$impl(IAcknowledgeable, rj.job.queue)) ==> result == nil
+//@   ensures [errs]    old(rj.job.status) == processing ==> result == ErrJobProcessing
+//@   ensures [errs2]   old(rj.job.status) == closed ==> result == ErrJobAlreadyClosed
+//@   ensures [ri]      RI_job($addr(rj.job)) && RespOpen(rj.Response, rj.job.status)
+
+// ---------------------------------------------------------------- group_job.go (batches)
+// A batch shares one counter (wgc) and, for error/result workers, one response stream; the stream is open while the counter is
+// positive. A member that is not yet closed accounts for one unit of the counter.
+//@ pred MemberOK(st int, wgc *helpers.WgCounter) := wgc != nil && RI_Wgc(wgc) && (st != closed ==> wgc.count >= 1)
+//@ pred StreamOK(r *helpers.Response, wgc *helpers.WgCounter) := r != nil && r.ch != nil && (wgc.count >= 1 ==> $open(r.ch))
+
+//@ func newGroupJob
+//@   props C05 C08
+//@   requires 0 <= bufferSize && bufferSize <= MaxUint32
+//@   modifies $alloc
+//@   ensures [fresh] $fresh(result) && result.wgc != nil && $fresh(result.wgc) && result.wgc.count == bufferSize && RI_Wgc(result.wgc)
+
+//@ func groupJob.newJob
+//@   props C05 C08 C07 C16
+//@   modifies $alloc
+//@   ensures [fresh] $fresh(result) && result.wgc == gj.wgc && result.job.data == data && result.job.status == created && result.job.ackId == "" && result.job.queue == nil
+//@   ensures [ri]    RI_member($addr(result.job))
+
+//@ func groupJob.NumPending
+//@   props C08 C17
+//@   requires gj.wgc != nil
+//@   ensures result == gj.wgc.count
+
+// Close of a batch member: refused while processing / when closed; otherwise closed and the batch counter drops by exactly one.
+//@ func groupJob.Close
+//@   props C05 C08 C10 C16
+//@   requires RI_member($addr(gj.job)) && MemberOK(gj.job.status, gj.wgc)
+//@   modifies gj.job.status, gj.wgc.count, gj.wgc.wg, $acks(gj.job.queue), $lastAck(gj.job.queue), $alloc, $wgdone[0]
+//@   ensures [processing] old(gj.job.status) == processing ==> result == ErrJobProcessing && gj.job.status == processing && gj.wgc.count == old(gj.wgc.count)
+//@   ensures [closed]     old(gj.job.status) == closed ==> result == ErrJobAlreadyClosed && gj.wgc.count == old(gj.wgc.count)
+//@   ensures [done]       old(gj.job.status) != processing && old(gj.job.status) != closed ==> result == nil && gj.job.status == closed && gj.wgc.count == old(gj.wgc.count) - 1
+//@   ensures [ri]         RI_member($addr(gj.job)) && RI_Wgc(gj.wgc)
+
+//@ func newResultGroupJob
+//@   props C08 C05
+//@   requires 0 <= bufferSize && bufferSize <= MaxUint32
+//@   modifies $alloc
+//@   ensures [fresh]  $fresh(result) && result.wgc != nil && $fresh(result.wgc) && result.wgc.count == bufferSize && RI_Wgc(result.wgc)
+//@   ensures [stream] result.resultJob.Response != nil && result.resultJob.Response.ch != nil && $fresh(result.resultJob.Response.ch) && $cap(result.resultJob.Response.ch) == bufferSize
+//@                      && $sent(result.resultJob.Response.ch) == 0 && $rcvd(result.resultJob.Response.ch) == 0
+//@   ensures [open]   bufferSize > 0 ==> $open(result.resultJob.Response.ch)
+//@   ensures [empty]  bufferSize == 0 ==> !$open(result.resultJob.Response.ch)
+
+//@ func resultGroupJob.newJob
+//@   props C08 C05 C07 C16
+//@   modifies $alloc
+//@   ensures [fresh] $fresh(result) && result.wgc == gj.wgc && result.resultJob.Response == gj.resultJob.Response && result.resultJob.job.data == data
+//@                     && result.resultJob.job.status == created && result.resultJob.job.ackId == "" && result.resultJob.job.queue == nil
+//@   ensures [ri]    RI_member($addr(result.resultJob.job))
+
+//@ func resultGroupJob.NumPending
+//@   props C08 C17
+//@   requires gj.wgc != nil
+//@   ensures result == gj.wgc.count
+
+// Close of a result-batch member: as groupJob.Close, and the stream is closed exactly when the counter reaches zero.
+//@ func resultGroupJob.Close
+//@   props C05 C08 C10 C16
+//@   requires RI_member($addr(gj.resultJob.job)) && MemberOK(gj.resultJob.job.status, gj.wgc) && StreamOK(gj.resultJob.Response, gj.wgc)
+//@   modifies gj.resultJob.job.status, gj.wgc.count, gj.wgc.wg, $acks(gj.resultJob.job.queue), $lastAck(gj.resultJob.job.queue), $alloc, $wgdone[0], $open(gj.resultJob.Response.ch)
+//@   ensures [refused] (old(gj.resultJob.job.status) == processing || old(gj.resultJob.job.status) == closed) ==> result != nil && gj.wgc.count == old(gj.wgc.count)
+//@                       && $open(gj.resultJob.Response.ch) == old($open(gj.resultJob.Response.ch)) && gj.resultJob.job.status == old(gj.resultJob.job.status)
+//@   ensures [done]    old(gj.resultJob.job.status) != processing && old(gj.resultJob.job.status) != closed ==> result == nil && gj.resultJob.job.status == closed
+//@                       && gj.wgc.count == old(gj.wgc.count) - 1
+//@   ensures [last]    result == nil ==> ($open(gj.resultJob.Response.ch) <==> gj.wgc.count >= 1)
+//@   ensures [ri]      RI_member($addr(gj.resultJob.job)) && RI_Wgc(gj.wgc) && StreamOK(gj.resultJob.Response, gj.wgc)
+
+//@ func newErrorGroupJob
+//@   props C08 C05
+//@   requires 0 <= bufferSize && bufferSize <= MaxUint32
+//@   modifies $alloc
+//@   ensures [fresh]  $fresh(result) && result.wgc != nil && $fresh(result.wgc) && result.wgc.count == bufferSize && RI_Wgc(result.wgc)
+//@   ensures [stream] result.errorJob.Response != nil && result.errorJob.Response.ch != nil && $fresh(result.errorJob.Response.ch) && $cap(result.errorJob.Response.ch) == bufferSize
+//@                      && $sent(result.errorJob.Response.ch) == 0 && $rcvd(result.errorJob.Response.ch) == 0
+//@   ensures [open]   bufferSize > 0 ==> $open(result.errorJob.Response.ch)
+//@   ensures [empty]  bufferSize == 0 ==> !$open(result.errorJob.Response.ch)
+
+//@ func errorGroupJob.newJob
+//@   props C08 C05 C07 C16
+//@   modifies $alloc
+//@   ensures [fresh] $fresh(result) && result.wgc == gj.wgc && result.errorJob.Response == gj.errorJob.Response && result.errorJob.job.data == data
+//@                     && result.errorJob.job.status == created && result.errorJob.job.ackId == "" && result.errorJob.job.queue == nil
+//@   ensures [ri]    RI_member($addr(result.errorJob.job))
+
+//@ func errorGroupJob.NumPending
+//@   props C08 C17
+//@   requires gj.wgc != nil
+//@   ensures result == gj.wgc.count
+
+//@ func errorGroupJob.Close
+//@   props C05 C08 C10 C16
+//@   requires RI_member($addr(gj.errorJob.job)) && MemberOK(gj.errorJob.job.status, gj.wgc) && StreamOK(gj.errorJob.Response, gj.wgc)
+//@   modifies gj.errorJob.job.status, gj.wgc.count, gj.wgc.wg, $acks(gj.errorJob.job.queue), $lastAck(gj.errorJob.job.queue), $alloc, $wgdone[0], $open(gj.errorJob.Response.ch)
+//@   ensures [refused] (old(gj.errorJob.job.status) == processing || old(gj.errorJob.job.status) == closed) ==> result != nil && gj.wgc.count == old(gj.wgc.count)
+//@                       && $open(gj.errorJob.Response.ch) == old($open(gj.errorJob.Response.ch)) && gj.errorJob.job.status == old(gj.errorJob.job.status)
+//@   ensures [done]    old(gj.errorJob.job.status) != processing && old(gj.errorJob.job.status) != closed ==> result == nil && gj.errorJob.job.status == closed
+//@                       && gj.wgc.count == old(gj.wgc.count) - 1
+//@   ensures [last]    result == nil ==> ($open(gj.errorJob.Response.ch) <==> gj.wgc.count >= 1)
+//@   ensures [ri]      RI_member($addr(gj.errorJob.job)) && RI_Wgc(gj.wgc) && StreamOK(gj.errorJob.Response, gj.wgc)
+
+// ---------------------------------------------------------------- persistence (C12): Json / parseToJob
+// Json encodes (id, status text, payload); what can be decoded from the bytes is exactly that (payload: its JSON round trip).
+//@ func job.Json
+//@   props C12
+//@   requires 0 <= j.status && j.status <= closed
+//@   modifies $alloc
+//@   ensures [id]      result1 == nil ==> $dec(result0, string, "varmq.jobView.Id") == j.id
+//@   ensures [payload] result1 == nil ==> $dec(result0, T, "varmq.jobView.Payload") == $jsonrt(T, j.data)
+//@   ensures [status]  result1 == nil ==> (j.status == created ==> $dec(result0, string, "varmq.jobView.Status") == "Created")
+//@                       && (j.status == queued ==> $dec(result0, string, "varmq.jobView.Status") == "Queued")
+//@                       && (j.status == processing ==> $dec(result0, string, "varmq.jobView.Status") == "Processing")
+//@                       && (j.status == finished ==> $dec(result0, string, "varmq.jobView.Status") == "Finished")
+//@                       && (j.status == closed ==> $dec(result0, string, "varmq.jobView.Status") == "Closed")
+//@   ensures [error]   result1 != nil ==> len(result0) == 0
+
+// parseToJob: an undecodable entry (or an unknown status text) is an error and yields no job; otherwise a fresh job with the decoded id and
+// payload and the status named by the status text.
+//@ func parseToJob
+//@   props C12 C05 C16
+//@   modifies $alloc
+//@   ensures [error]  result1 != nil ==> result0 == nil
+//@   ensures [job]    result1 == nil ==> $typeof(result0) == $tid(*job) && $fresh($ptrof(result0))
+//@   ensures [fields] result1 == nil ==> $as(*job, result0).id == $dec(data, string, "varmq.jobView.Id") && $as(*job, result0).data == $dec(data, T, "varmq.jobView.Payload")
+//@                       && $as(*job, result0).ackId == "" && $as(*job, result0).queue == nil
+//@   ensures [status] result1 == nil ==> ($dec(data, string, "varmq.jobView.Status") == "Created" ==> $as(*job, result0).status == created)
+//@                       && ($dec(data, string, "varmq.jobView.Status") == "Queued" ==> $as(*job, result0).status == queued)
+//@                       && ($dec(data, string, "varmq.jobView.Status") == "Processing" ==> $as(*job, result0).status == processing)
+//@                       && ($dec(data, string, "varmq.jobView.Status") == "Finished" ==> $as(*job, result0).status == finished)
+//@                       && ($dec(data, string, "varmq.jobView.Status") == "Closed" ==> $as(*job, result0).status == closed)
+//@   ensures [known]  result1 == nil ==> 0 <= $as(*job, result0).status && $as(*job, result0).status <= closed && $as(*job, result0).wg == 1
